@@ -99,9 +99,14 @@ func (s *st) rotate(g int) {
 	r := s.latest(g, fosite.RefreshToken)
 	resp, err := s.w.Refresh(s.client[g], r.Val)
 	zz.Assume(err == nil)
-	for _, o := range s.l.Toks {
+	for i, o := range s.l.Toks {
 		if o.Grant == g && o.Gen == r.Gen && o.TE {
 			o.Live = false
+		}
+		if o.Grant == g && !o.TE && o.Live {
+			// an access token handed out by the authorization endpoint (hybrid) shares the grant's
+			// request id: whether a rotation also takes it down is not determined by the statement
+			s.unsure[i] = true
 		}
 	}
 	s.addPair(g, resp)
